@@ -14,7 +14,8 @@ MANIFEST = dict(
          "register'. TLC enumerates all histories of sketch / sketch_slice / merge over 2-3 sketcher instances (incl. instances "
          "with different parameters: the merge must be refused and leave the receiver unchanged); each is replayed on the real "
          "sketchers (f32/f64, u16/u32, parameter tuples that exercise clipping at 0, at q+1 and the u16 overflow) and every "
-         "recorded step (registers, get_low_sketch, outcome) is validated by TLC against the join of measured tables.",
+         "recorded step (registers, get_low_sketch, outcome) is validated by TLC against the join of measured tables."
+         " Instances of another parameter class may also differ in m (the merge must be refused).",
     design_ref="DESIGN.md section 4, C04/C05",
     note="trusted: TLC, Json/IOUtils, rank abstraction, measured single-item tables; exhaustive for the stated small "
          "bounds only; parameter-equality of merge is exercised on (b, a, q) differences, not on m",
